@@ -27,8 +27,9 @@ def parseCfg? (s : String) : Option Cfg := do
   let vel ← if velS = "-" then some none else (intList? velS).map some
   let drop := (m.lookup "drop") == some "1"
   let noOpt := (m.lookup "opt") == some "0"
+  let ncap := (m.lookup "ncap") == some "1"
   some { w := w, B := B, memory := mem, maxNeighbors := maxn, maxSize := maxsize, vel := vel,
-         drop := drop, noOpt := noOpt }
+         drop := drop, noOpt := noOpt, numbaCap := ncap }
 
 def parseLevel? (s : String) : Option Level := do
   match splitKeep s "|" with
